@@ -119,6 +119,9 @@ func handoverHistory(w *tracew.Writer, seed int64, run, depth int, o HandoverOpt
 		r.Read(e)
 		d.bg.evms = append(d.bg.evms, e)
 	}
+	if r.Intn(3) == 0 { // boundary EVM addresses: all zeros, all ones
+		d.bg.evms[r.Intn(3)] = bytes.Repeat([]byte{[]byte{0, 0xff}[r.Intn(2)]}, 20)
+	}
 	st, err := project.Handover(a.C)
 	if err != nil {
 		return err
@@ -515,7 +518,7 @@ func (d *hoDriver) height() error {
 		desc := d.describe(a.C, proposal, "VALID", true, true)
 		if ferr != nil {
 			d.emit("finalize", Ev{"h": h, "proposer": proposer + 1, "p": desc, "msgOk": false, "modulesOk": d.lg.clean, "endNp": endNp, "endFcu": endFcu,
-				"err": true, "errText": short(ferr.Error()), "engine": engineView(calls), "blockHash": project.H6(blkA.Hash(a.C.ChainID)), "byz": ""})
+				"oog": false, "err": true, "errText": short(ferr.Error()), "engine": engineView(calls), "blockHash": project.H6(blkA.Hash(a.C.ChainID)), "byz": ""})
 			// a real node dies here; it comes back with the committed state and the block is retried
 			d.emit("crash", Ev{})
 			if err := a.C.Restart(); err != nil {
@@ -535,7 +538,7 @@ func (d *hoDriver) height() error {
 		}
 		msgOk := res.TxResults[0].Code == 0
 		d.emit("finalize", Ev{"h": h, "proposer": proposer + 1, "p": desc, "msgOk": msgOk, "modulesOk": d.lg.clean, "endNp": endNp, "endFcu": endFcu,
-			"err": false, "errText": short(res.TxResults[0].Log), "engine": engineView(calls), "blockHash": project.H6(blkA.Hash(a.C.ChainID)), "byz": ""})
+			"oog": res.TxResults[0].Code == 11, "err": false, "errText": short(res.TxResults[0].Log), "engine": engineView(calls), "blockHash": project.H6(blkA.Hash(a.C.ChainID)), "byz": ""})
 		key := hex.EncodeToString(prevApp) + "/" + hex.EncodeToString(blkA.Hash(a.C.ChainID)[:6])
 		d.emit("exec", Ev{"key": key, "res": execDigest(res, calls, a.C), "replica": "A", "attempt": attempt, "detail": execDetail(res)})
 		cometErr := a.C.ApplyUpdates(h, res.ValidatorUpdates)
@@ -568,13 +571,13 @@ func (d *hoDriver) height() error {
 				// the same block on the same committed state, executed again on a healthy engine, fails: recorded as a failed
 				// finalisation no fault explains and as a second, different result for the same execution key
 				d.emit("finalize", Ev{"h": h, "proposer": proposer + 1, "p": desc, "msgOk": false, "modulesOk": d.lg.clean, "endNp": "VALID", "endFcu": "VALID",
-					"err": true, "errText": short(err.Error()), "engine": engineView(a.C.Eng.TakeLog()), "blockHash": project.H6(blkA.Hash(a.C.ChainID)), "byz": ""})
+					"oog": false, "err": true, "errText": short(err.Error()), "engine": engineView(a.C.Eng.TakeLog()), "blockHash": project.H6(blkA.Hash(a.C.ChainID)), "byz": ""})
 				d.emit("exec", Ev{"key": key, "res": "error:" + short(err.Error()), "replica": "A", "attempt": attempt + k + 1, "detail": "re-execution failed"})
 				return &HaltError{Height: h, Err: fmt.Errorf("re-execution failed: %w", err)}
 			}
 			calls2 := a.C.Eng.TakeLog()
 			d.emit("finalize", Ev{"h": h, "proposer": proposer + 1, "p": desc, "msgOk": res2.TxResults[0].Code == 0, "modulesOk": d.lg.clean, "endNp": "VALID", "endFcu": "VALID",
-				"err": false, "errText": "", "engine": engineView(calls2), "blockHash": project.H6(blkA.Hash(a.C.ChainID)), "byz": ""})
+				"oog": res2.TxResults[0].Code == 11, "err": false, "errText": "", "engine": engineView(calls2), "blockHash": project.H6(blkA.Hash(a.C.ChainID)), "byz": ""})
 			d.emit("exec", Ev{"key": key, "res": execDigest(res2, calls2, a.C), "replica": "A", "attempt": attempt + k + 1, "detail": execDetail(res2)})
 		}
 		// the replica executes the same block fault-free
@@ -702,7 +705,7 @@ func (d *hoDriver) mutatedProcess(h int64, round, proposer int, now time.Time, v
 	}
 	muts := []string{"reorder", "dupBlock", "dropBlock", "blockLater", "blockLaterValid", "blockChild", "blockChild", "blockPairLater", "blockPairFirst", "wrongParent", "wrongNumber", "wrongBeacon", "wrongProposer", "wrongRecipient",
 		"recipientPadded", "recipientShort", "sysAdded", "sysRemoved", "sysAltered", "countByte", "reqGarbage", "gas0", "gas2", "futureTime", "engineInvalid", "engineSyncing", "tooMany", "empty",
-		"garbageRest", "timeoutWrong", "badSig", "blob", "excessBlob", "gasFields", "paddedParent", "paddedBeacon"}
+		"garbageRest", "timeoutWrong", "badSig", "blob", "excessBlob", "gasFields", "paddedParent", "paddedBeacon", "lowGas", "lowGas"}
 	mut := muts[r.Intn(len(muts))]
 	// when system transactions of BOTH modules are due, often cut the list inside / right after the bridge's part
 	nb, nl := 0, 0
@@ -965,6 +968,31 @@ func (d *hoDriver) mutatedProcess(h int64, round, proposer int, now time.Time, v
 	case "garbageRest":
 		txs = append(txs, []byte{0xde, 0xad, 0xbe, 0xef})
 		restOk = false
+	case "lowGas":
+		// the proposer chooses the gas limit of the execution-block transaction (the honest one takes 1e8); ProcessProposal only
+		// runs the admission checks on it. With a limit around what the transaction needs it runs out of gas somewhere inside the
+		// message handler (or already during admission): whatever the handler did up to then must leave no trace anywhere
+		if h <= c.InitialHeight {
+			return nil
+		}
+		// what the honest transaction needs is measured by a dry run on this replica (executed, never committed)
+		dry := &sim.Block{Height: h, Round: round, Time: now, Proposer: proposer, Votes: votes, Misbehavior: misb, Txs: honest}
+		need := uint64(0)
+		if _, err := c.Process(dry); err != nil {
+			return err
+		}
+		if res, err := c.Finalize(dry); err == nil && len(res.TxResults) > 0 && res.TxResults[0].Code == 0 {
+			need = uint64(res.TxResults[0].GasUsed)
+		}
+		c.Eng.TakeLog()
+		if err := c.Restart(); err != nil {
+			return err
+		}
+		if need < 20_000 {
+			return nil
+		}
+		cut := []uint64{1, 1, 300, 1000, 2000, 3000, 5000, 10000, need / 2}[r.Intn(9)]
+		txs = append([][]byte{blockTx(clone(), proposer, sim.SignOpts{GasLimit: need - cut})}, rest...)
 	case "timeoutWrong":
 		txs = append([][]byte{blockTx(clone(), proposer, sim.SignOpts{TimeoutHeight: uint64(h + 1)})}, rest...)
 	case "badSig":
@@ -995,8 +1023,8 @@ func (d *hoDriver) mutatedProcess(h int64, round, proposer int, now time.Time, v
 	byzFinal := map[string]bool{"wrongParent": true, "wrongNumber": true, "wrongBeacon": true, "wrongProposer": true, "wrongRecipient": true,
 		"recipientPadded": true, "recipientShort": true, "sysAdded": true, "sysRemoved": true, "sysAltered": true, "countByte": true,
 		"reqGarbage": true, "gas0": true, "gas2": true, "futureTime": true, "blob": true, "timeoutWrong": true,
-		"blockChild": true, "blockLaterValid": true, "blockPairLater": true, "excessBlob": true, "gasFields": true, "paddedParent": true, "paddedBeacon": true}
-	if byzFinal[mut] && h > c.InitialHeight && (skew || r.Intn(2) == 0) {
+		"blockChild": true, "blockLaterValid": true, "blockPairLater": true, "excessBlob": true, "gasFields": true, "paddedParent": true, "paddedBeacon": true, "lowGas": true}
+	if byzFinal[mut] && h > c.InitialHeight && (skew || mut == "lowGas" || r.Intn(2) == 0) {
 		prevApp := c.App.LastCommitID().Hash
 		txsDigest := sha256.New()
 		for _, t := range txs {
@@ -1019,10 +1047,10 @@ func (d *hoDriver) mutatedProcess(h int64, round, proposer int, now time.Time, v
 		modulesOk := d.lg.clean && mut != "gas0" && mut != "gas2" && mut != "reqGarbage"
 		if ferr != nil {
 			d.emit("finalize", Ev{"h": h, "proposer": proposer + 1, "p": desc, "msgOk": false, "modulesOk": modulesOk, "endNp": "VALID", "endFcu": "VALID",
-				"err": true, "errText": short(ferr.Error()), "engine": engineView(calls), "blockHash": project.H6(blk.Hash(c.ChainID)), "byz": mut})
+				"oog": false, "err": true, "errText": short(ferr.Error()), "engine": engineView(calls), "blockHash": project.H6(blk.Hash(c.ChainID)), "byz": mut})
 		} else {
 			d.emit("finalize", Ev{"h": h, "proposer": proposer + 1, "p": desc, "msgOk": res.TxResults[0].Code == 0, "modulesOk": modulesOk, "endNp": "VALID", "endFcu": "VALID",
-				"err": false, "errText": short(res.TxResults[0].Log), "engine": engineView(calls), "blockHash": project.H6(blk.Hash(c.ChainID)), "byz": mut})
+				"oog": res.TxResults[0].Code == 11, "err": false, "errText": short(res.TxResults[0].Log), "engine": engineView(calls), "blockHash": project.H6(blk.Hash(c.ChainID)), "byz": mut})
 		}
 		d.emit("crash", Ev{})
 		if err := c.Restart(); err != nil {
